@@ -1,2 +1,3 @@
 import BitcaskVerif.Resp.Model
 import BitcaskVerif.Resp.Conn
+import BitcaskVerif.Props.C07
